@@ -146,7 +146,7 @@ class RunResult:
 
 def run_analysis(case, workers, timeout, chooser, threshold, max_steps=200000, deadline_slack=None,
                  parent_cost=None, speeds=None, start_delays=None, want_report=True, extra_inv=None, rtt=None,
-                 via_cli=False, item_cost=None):
+                 via_cli=False, item_cost=None, fork_cost=None):
     """One simulated analysis.  Returns RunResult with everything the oracles need."""
     import osaca.semantics.kernel_dg as kd
     case.prepare()
@@ -156,9 +156,11 @@ def run_analysis(case, workers, timeout, chooser, threshold, max_steps=200000, d
         rtt = procs.RTTS[chooser.choose(len(procs.RTTS), "rtt")]
     if item_cost is None:
         item_cost = procs.ITEM_COSTS[chooser.choose(len(procs.ITEM_COSTS), "itemcost")]
+    if fork_cost is None:
+        fork_cost = procs.FORK_COSTS[chooser.choose(len(procs.FORK_COSTS), "forkcost")]
     w = procs.World(sim, ncpu=workers, shared=[case.parser, case.mm, case.sem],
                     speeds=speeds or procs.SPEEDS, start_delays=start_delays or procs.START_DELAYS, rtt=rtt,
-                    item_cost=item_cost)
+                    item_cost=item_cost, fork_cost=fork_cost)
     if parent_cost is None:
         parent_cost = (speeds or procs.SPEEDS)[chooser.choose(len(speeds or procs.SPEEDS), "pspeed")]
     res = RunResult()
@@ -171,12 +173,12 @@ def run_analysis(case, workers, timeout, chooser, threshold, max_steps=200000, d
 
         def inv(s):
             c = s.captured
-            if c.get("in_search") and s.now - c["search_enter"] > bound:
+            if c.get("in_search") and s.now - c["search_enter"] - c.get("launch_overhead", 0.0) > bound:
                 # the deadline bounds the *search*: workers still running, or (sequential branch, no
                 # worker was ever created) the parent enumerating.  Copying results out of the manager
                 # and post-processing after every worker is dead is overhead the property does not bound.
                 alive = [p.pid for p in w.procs if p.started and not p.task.done and not p.task.killed]
-                own = s.now - c["search_enter"] - c.get("parent_rtt", 0.0)
+                own = s.now - c["search_enter"] - c.get("launch_overhead", 0.0) - c.get("parent_rtt", 0.0)
                 if alive or not w.procs or own > bound:
                     raise InvariantViolation(
                         "deadline_overrun",
